@@ -170,7 +170,7 @@ DRV_CMD(layout_dump, "layout.dump") {
   outf("def bmp_FileSignature : List Nat := [%u, %u]\n", static_cast<unsigned char>(BmpHeader::FileSignature[0]), static_cast<unsigned char>(BmpHeader::FileSignature[1]));
   SZ("Color", Color); OFF("Color_red", Color, red); OFF("Color_green", Color, green); OFF("Color_blue", Color, blue); OFF("Color_alpha", Color, alpha);
   SZ("SectionHeader", SectionHeader); SZ("PaletteHeader", PaletteHeader);
-  SZ("TilesetHeader", Tileset::TilesetHeader); SZ("PpalHeader", Tileset::PpalHeader);
+  SZ("TilesetHeader", Tileset::TilesetHeader); SZ("PpalHeader", Tileset::PpalHeader); SZ("Tag", Tag);
   NAT("ts_DefaultSectionSize", Tileset::TilesetHeader::DefaultSectionSize); NAT("ts_DefaultTagCount", Tileset::TilesetHeader::DefaultTagCount);
   NAT("ts_DefaultPixelWidth", Tileset::TilesetHeader::DefaultPixelWidth); NAT("ts_DefaultPixelHeightMultiple", Tileset::TilesetHeader::DefaultPixelHeightMultiple);
   NAT("ts_DefaultBitDepth", Tileset::TilesetHeader::DefaultBitDepth); NAT("ts_DefaultFlags", Tileset::TilesetHeader::DefaultFlags);
